@@ -5,6 +5,7 @@ import (
 	"encoding/base64"
 	"encoding/json"
 	"fmt"
+	"github.com/invopop/gobl/schema"
 	"os"
 	"os/exec"
 	"path/filepath"
@@ -402,6 +403,83 @@ func runC16(c *Ctx) {
 		if p, _ := Safely(func() { res, cerr = env.Correct(bill.WithData(json.RawMessage(ob))) }); p != nil {
 			c.R.Count("panics", 1)
 			return
+		}
+		// the same options handed over as a struct and as individual option
+		// functions must give the same correction (or the same refusal)
+		{
+			ways := map[string][]schema.Option{}
+			co := new(bill.CorrectionOptions)
+			if json.Unmarshal(ob, co) == nil {
+				ways["WithOptions"] = []schema.Option{bill.WithOptions(co)}
+				var fs []schema.Option
+				okType := true
+				switch j.o.Type {
+				case "credit-note":
+					fs = append(fs, bill.Credit)
+				case "corrective":
+					fs = append(fs, bill.Corrective)
+				case "debit-note":
+					fs = append(fs, bill.Debit)
+				default:
+					okType = false
+				}
+				if okType {
+					if co.Reason != "" {
+						fs = append(fs, bill.WithReason(co.Reason))
+					}
+					if co.Series != "" {
+						fs = append(fs, bill.WithSeries(co.Series))
+					}
+					if co.IssueDate != nil {
+						fs = append(fs, bill.WithIssueDate(*co.IssueDate))
+					}
+					if co.CopyTax {
+						fs = append(fs, bill.WithCopyTax())
+					}
+					if len(co.Stamps) > 0 {
+						fs = append(fs, bill.WithStamps(co.Stamps))
+					}
+					var eks []string
+					for k := range co.Ext {
+						eks = append(eks, k.String())
+					}
+					sort.Strings(eks)
+					for _, k := range eks {
+						fs = append(fs, bill.WithExtension(cbc.Key(k), co.Ext[cbc.Key(k)]))
+					}
+					ways["option functions"] = fs
+				}
+			}
+			ref := "refused"
+			if cerr == nil {
+				rb0, _ := json.Marshal(res)
+				ref = stableDoc(rb0)
+			}
+			for name, opts := range ways {
+				env2, err := gx.ParseEnvelope(j.s.env)
+				if err != nil {
+					continue
+				}
+				var r2 *gobl.Envelope
+				var e2 error
+				if p, _ := Safely(func() { r2, e2 = env2.Correct(opts...) }); p != nil {
+					c.R.Count("panics", 1)
+					continue
+				}
+				got := "refused"
+				if e2 == nil {
+					rb2, _ := json.Marshal(r2)
+					got = stableDoc(rb2)
+				}
+				c.R.Count("option_passing_ways_compared", 1)
+				if got != ref {
+					cls, det := "outcome", fmt.Sprintf("WithData: %v, %s: %v", cerr, name, e2)
+					if got != "refused" && ref != "refused" {
+						cls, det = firstJSONDiff([]byte(ref), []byte(got))
+					}
+					c.R.Fail("option-passing:"+strings.ReplaceAll(name, " ", "-")+":"+cls, fmt.Sprintf("%s (%s) corrected with %s: passing the options through %s gives a different result than through WithData: %s", j.s.it.Rel, j.s.variant, ob, name, det), wit())
+				}
+			}
 		}
 		after, _ := json.Marshal(env)
 		fpA, _ := walk.Fingerprint(env)
